@@ -518,3 +518,33 @@ func sysSummarizeDump(log string) (summary []string, lockers string) {
 
 	return summary, strings.Join(lockStacks, "\n\n")
 }
+
+// targetPID returns the pid of the AdGuardHome process itself: the child of
+// the wrapper (strace) when one is used.
+func (in *sysInst) targetPID() int {
+	pid := in.cmd.Process.Pid
+	for i := 0; i < 50; i++ {
+		b, err := os.ReadFile(fmt.Sprintf("/proc/%d/task/%d/children", pid, pid))
+		if err == nil {
+			if f := strings.Fields(string(b)); len(f) > 0 {
+				var c int
+				if _, serr := fmt.Sscanf(f[0], "%d", &c); serr == nil {
+					return c
+				}
+			}
+		}
+		time.Sleep(20 * time.Millisecond)
+	}
+
+	return pid
+}
+
+// signalTarget sends sig to the AdGuardHome process (not to a wrapper).
+func (in *sysInst) signalTarget(sig syscall.Signal) {
+	if strings.HasSuffix(in.cmd.Path, "strace") {
+		_ = syscall.Kill(in.targetPID(), sig)
+
+		return
+	}
+	_ = in.cmd.Process.Signal(sig)
+}
